@@ -41,6 +41,13 @@ import (
 func init() {
 	props["C12"] = runC12
 	replayers["C12"] = func(c *ctx, a []string) {
+		if len(a) >= 4 && a[0] == "world" {
+			sh, _ := strconv.Atoi(strings.TrimPrefix(a[1], "s"))
+			j := &c12jobs{c: c}
+			c12worldCase(j, sh, a[2], a[3:])
+			j.flush()
+			return
+		}
 		if len(a) == 5 && a[0] == "inst" {
 			n, err := strconv.Atoi(a[2])
 			if err != nil {
@@ -1050,9 +1057,664 @@ func c12instCorpus(j *c12jobs) {
 	}
 }
 
+// ---------------------------------------------------------------------------------------------
+// world mode
+//
+//   C12 world s<shards> <script> <op> <op> ... => T:<step>;<step>..|E:<e>,<e>..|d=<files>|u=<files>|ut=<files>|tbl=..|tblt=..|snap=..|tf=..
+//
+// <script>: `-` or `<sync index>:<fault>` joined by `,`; faults: `F=<file>+<file>..` (these files, relative
+// to the controller's directory, cannot be written during that reconcile), `RS` (reload command fails),
+// `RF` (reload accepted, worker fails), `AE<i>+<j>..` / `AB..` (admin socket error / bad answer on these
+// Sends of the reconcile, `*` = all).  The ops are a world history; every `sync` is one reconcile; a
+// `sync` that follows another one directly is the scheduled retry (no new event).
+//
+// A fault-free TWIN controller runs the same history; for every reconcile it reports which files it
+// wrote (`os.WriteFile` detected through the modification time, all files are aged before the step)
+// with their content hash, whether it asked for a reload and how many admin Sends it made:
+// <step> = `<reload 0|1>~<sends>~<pre>^<post>`, pre = files written before the dynamic update (tcp maps,
+// frontend crt-list + maps, backend maps, tcp crt-lists), post = after it (modsec, error files, lua,
+// haproxy.cfg, shards ascending), each `<file>@<hash without server lines>@<hash of the server lines>`
+// joined by `+`.  ut= is u= for the twin (a backend removed without a reload stays loaded).  E: per reconcile of the FAULTY controller `0|1` (error returned).
+// d= files whose final content differs between the faulty controller and the twin; u= files of the
+// faulty controller whose content differs from what its HAProxy read at the last successful reload
+// (server lines left out: they are compared through the running server table, tbl=eq|diff);
+// snap= semantic normal form faulty vs twin; tf= twin vs a fresh controller on the final state.
+
+type c12wfault struct {
+	files []string
+	kind  string // "", RS, RF, AE, AB
+	idxs  []int
+	all   bool
+}
+
+func c12parseScript(s string) map[int]c12wfault {
+	res := map[int]c12wfault{}
+	if s == "-" || s == "" {
+		return res
+	}
+	for _, part := range strings.Split(s, ",") {
+		kv := strings.SplitN(part, ":", 2)
+		if len(kv) != 2 {
+			continue
+		}
+		i, err := strconv.Atoi(kv[0])
+		if err != nil {
+			continue
+		}
+		f := c12wfault{}
+		switch {
+		case strings.HasPrefix(kv[1], "F="):
+			f.files = strings.Split(kv[1][2:], "+")
+		case kv[1] == "RS" || kv[1] == "RF":
+			f.kind = kv[1]
+		case strings.HasPrefix(kv[1], "AE") || strings.HasPrefix(kv[1], "AB"):
+			f.kind = kv[1][:2]
+			if kv[1][2:] == "*" {
+				f.all = true
+			} else {
+				for _, t := range strings.Split(kv[1][2:], "+") {
+					if v, err := strconv.Atoi(t); err == nil {
+						f.idxs = append(f.idxs, v)
+					}
+				}
+			}
+		}
+		res[i] = f
+	}
+	return res
+}
+
+// c12rank: position of a file in the write order of HAProxyUpdate (groups; shards ascending)
+func c12rank(rel string) int {
+	base := filepath.Base(rel)
+	switch {
+	case strings.HasPrefix(rel, "maps/_tcp_sni_"):
+		return 0
+	case rel == "maps/_front_bind_crt.list":
+		return 1
+	case strings.HasPrefix(rel, "maps/_front_"):
+		return 2
+	case strings.HasPrefix(rel, "maps/_back_"):
+		return 3
+	case strings.HasPrefix(rel, "cfg/crtlist_tcp_"):
+		return 4
+	case rel == "cfg/spoe-modsecurity.conf":
+		return 5
+	case strings.HasPrefix(rel, "cfg/errorfiles/"):
+		return 6
+	case strings.HasPrefix(rel, "cfg/lua/"):
+		return 7
+	case rel == "cfg/haproxy.cfg":
+		return 8
+	}
+	if m := c05reShardFile.FindStringSubmatch(base); m != nil && strings.HasPrefix(rel, "cfg/") {
+		k, _ := strconv.Atoi(m[1])
+		return 9 + k
+	}
+	return 5000
+}
+
+var c12old = time.Unix(1000000, 0)
+
+// c12dirs: the two directories a controller writes into; files are named `cfg/<path below the
+// configuration directory>` and `maps/<path below the maps directory>` whatever the real layout is
+type c12dirs struct{ root, cfg, maps string }
+
+func c12dirsOf(p *world.Pipeline) c12dirs { return c12dirs{p.Dir, p.CfgDir, p.MapsDir} }
+
+func (d c12dirs) abs(rel string) string {
+	if strings.HasPrefix(rel, "maps/") {
+		return filepath.Join(d.maps, rel[5:])
+	}
+	return filepath.Join(d.cfg, strings.TrimPrefix(rel, "cfg/"))
+}
+
+// c12files lists the regular files below the configuration and the maps directory (relative names)
+func c12files(d c12dirs) []string {
+	var res []string
+	for _, sub := range []struct{ name, dir string }{{"cfg", d.cfg}, {"maps", d.maps}} {
+		_ = filepath.Walk(sub.dir, func(path string, info os.FileInfo, err error) error {
+			if err != nil {
+				return nil
+			}
+			if info.IsDir() && sub.name == "cfg" && path == d.maps {
+				return filepath.SkipDir
+			}
+			if info.Mode().IsRegular() {
+				rel, _ := filepath.Rel(sub.dir, path)
+				res = append(res, sub.name+"/"+rel)
+			}
+			return nil
+		})
+	}
+	sort.Strings(res)
+	return res
+}
+
+func c12age(d c12dirs) {
+	for _, f := range c12files(d) {
+		_ = os.Chtimes(d.abs(f), c12old, c12old)
+	}
+}
+
+func c12hashText(s string) string {
+	h := uint64(1469598103934665603)
+	for i := 0; i < len(s); i++ {
+		h ^= uint64(s[i])
+		h *= 1099511628211
+	}
+	return strconv.FormatUint(h%0xfffffff, 36)
+}
+
+// content of a file with the scratch directory factored out; `noServers` drops the server lines
+func c12content(d c12dirs, rel string, noServers bool) (string, bool) {
+	data, err := os.ReadFile(d.abs(rel))
+	if err != nil {
+		return "", false
+	}
+	txt := strings.ReplaceAll(string(data), d.root, "$DIR")
+	if noServers && strings.HasSuffix(rel, ".cfg") {
+		// of a server line only what the server table does not show is kept: its options
+		var keep []string
+		for _, l := range strings.Split(txt, "\n") {
+			f := strings.Fields(l)
+			if len(f) >= 3 && f[0] == "server" {
+				var opts []string
+				for i := 3; i < len(f); i++ {
+					switch f[i] {
+					case "disabled":
+					case "weight":
+						i++
+					default:
+						opts = append(opts, f[i])
+					}
+				}
+				keep = append(keep, "    server * * "+strings.Join(opts, " "))
+			} else {
+				keep = append(keep, l)
+			}
+		}
+		txt = strings.Join(keep, "\n")
+	}
+	return txt, true
+}
+
+func c12written(d c12dirs) []string {
+	var res []string
+	for _, f := range c12files(d) {
+		if st, err := os.Stat(d.abs(f)); err == nil && !st.ModTime().Equal(c12old) {
+			res = append(res, f)
+		}
+	}
+	sort.SliceStable(res, func(i, j int) bool {
+		ri, rj := c12rank(res[i]), c12rank(res[j])
+		return ri < rj || (ri == rj && res[i] < res[j])
+	})
+	return res
+}
+
+type c12wstep struct {
+	written []string
+	hashes  []string // <hash without server lines>@<hash of the server lines>
+	reload  bool
+	sends   int
+}
+
+// <reload>~<sends>~<files written before the dynamic update>^<files written after it>
+func (s c12wstep) text() string {
+	var pre, post []string
+	for i := range s.written {
+		t := s.written[i] + "@" + s.hashes[i]
+		if c12rank(s.written[i]) < 5 {
+			pre = append(pre, t)
+		} else {
+			post = append(post, t)
+		}
+	}
+	r := "0"
+	if s.reload {
+		r = "1"
+	}
+	return fmt.Sprintf("%s~%d~%s^%s", r, s.sends, joinOr(pre), joinOr(post))
+}
+
+// c12srvHashes: per *.cfg file the hash of its part of the server table (what `world.DiskTable` and
+// `Sim.RunningTable` compare: backends that have servers, enabled servers by address, weight and state)
+func c12srvHashes(cfgDir string) map[string]string {
+	res := map[string]string{}
+	cfg, err := world.LoadConfig(cfgDir)
+	if err != nil {
+		return res
+	}
+	tbl, err := world.DiskTable(cfgDir)
+	if err != nil {
+		return res
+	}
+	per := map[string][]string{}
+	for _, l := range tbl {
+		f := strings.Fields(l)
+		if len(f) < 2 {
+			continue
+		}
+		if sec, ok := cfg.Backends[f[0]]; ok {
+			per["cfg/"+sec.File] = append(per["cfg/"+sec.File], l)
+		}
+	}
+	for f, ls := range per {
+		res[f] = c12hashText(strings.Join(ls, "\n"))
+	}
+	return res
+}
+
+// c12hashes: content hash without the server lines @ hash of the file's part of the server table
+func c12hashes(d c12dirs, rel string, srv map[string]string) string {
+	ns, _ := c12content(d, rel, true)
+	if h, ok := srv[rel]; ok {
+		return c12hashText(ns) + "@" + h
+	}
+	return c12hashText(ns) + "@0"
+}
+
+type c12wrun struct {
+	steps   []c12wstep
+	errs    []string
+	diff    []string
+	unload  []string
+	tunload []string
+	tbl     string
+	tblt    string
+	snap    string
+	tf      string
+	fail    string
+}
+
+func joinOr(l []string) string {
+	if len(l) == 0 {
+		return "-"
+	}
+	return strings.Join(l, "+")
+}
+
+func (r c12wrun) text() string {
+	if r.fail != "" {
+		return r.fail
+	}
+	st := make([]string, len(r.steps))
+	for i, s := range r.steps {
+		st[i] = s.text()
+	}
+	return fmt.Sprintf("T:%s|E:%s|d=%s|u=%s|ut=%s|tbl=%s|tblt=%s|snap=%s|tf=%s", strings.Join(st, ";"), strings.Join(r.errs, ","),
+		joinOr(r.diff), joinOr(r.unload), joinOr(r.tunload), r.tbl, r.tblt, r.snap, r.tf)
+}
+
+func c12firstDiff(a, b string) string {
+	la, lb := strings.Split(a, "\n"), strings.Split(b, "\n")
+	for i := 0; i < len(la) || i < len(lb); i++ {
+		x, y := "<end>", "<end>"
+		if i < len(la) {
+			x = la[i]
+		}
+		if i < len(lb) {
+			y = lb[i]
+		}
+		if x != y {
+			return sanitize(fmt.Sprintf("faulty[%s]twin[%s]", x, y))
+		}
+	}
+	return ""
+}
+
+// c12worldRun runs the history on the twin and on the faulty controller
+func c12worldRun(shards int, script map[int]c12wfault, ops []string, withFresh bool) (res c12wrun) {
+	defer func() {
+		if r := recover(); r != nil {
+			res.fail = "PANIC"
+			fmt.Fprintf(os.Stderr, "C12 world panic: %v\n", r)
+		}
+	}()
+	opt := world.DefaultOptions()
+	opt.Shards = shards
+	opt.KeepLog = os.Getenv("C12_LOG") != ""
+	wt, wf := world.NewWorld(), world.NewWorld()
+	twin, err := world.NewPipeline(wt, opt)
+	if err != nil {
+		res.fail = "err:" + sanitize(err.Error())
+		return
+	}
+	defer twin.Close()
+	faulty, err := world.NewPipeline(wf, opt)
+	if err != nil {
+		res.fail = "err:" + sanitize(err.Error())
+		return
+	}
+	defer faulty.Close()
+	td, fd := c12dirsOf(twin), c12dirsOf(faulty)
+	loaded := map[string]string{}  // what the faulty controller's HAProxy read at its last successful reload
+	tloaded := map[string]string{} // the same for the twin
+	reloads, treloads := 0, 0
+	sync := 0
+	for _, o := range ops {
+		if o != "sync" {
+			evt, err := wt.Apply(world.Op{Text: o})
+			if err != nil {
+				res.fail = "err:" + sanitize(err.Error())
+				return
+			}
+			twin.Deliver(evt)
+			evf, _ := wf.Apply(world.Op{Text: o})
+			faulty.Deliver(evf)
+			continue
+		}
+		// twin
+		c12age(td)
+		r0, a0 := twin.Sim.ReloadTr, twin.Sim.AdminTr
+		if _, err := twin.Reconcile(); err != nil {
+			res.fail = "err:twin:" + sanitize(err.Error())
+			return
+		}
+		st := c12wstep{reload: twin.Sim.ReloadTr > r0, sends: twin.Sim.AdminTr - a0}
+		if os.Getenv("C12_LOG") != "" {
+			fmt.Fprintln(os.Stderr, "DBG written", c12written(td))
+		}
+		srv := c12srvHashes(twin.CfgDir)
+		for _, f := range c12written(td) {
+			st.written = append(st.written, f)
+			st.hashes = append(st.hashes, c12hashes(td, f, srv))
+		}
+		if twin.Sim.Reloads != treloads {
+			treloads = twin.Sim.Reloads
+			tloaded = map[string]string{}
+			for _, f := range c12files(td) {
+				tloaded[f], _ = c12content(td, f, true)
+			}
+		}
+		res.steps = append(res.steps, st)
+		// faulty
+		var undo []func()
+		faulty.Sim.Faults = world.Faults{ReloadSendErr: map[int]bool{}, ReloadFailed: map[int]bool{}, AdminErr: map[int]bool{}, AdminBad: map[int]string{}}
+		if f, ok := script[sync]; ok {
+			for _, rel := range f.files {
+				undo = append(undo, c12block(fd.abs(rel)))
+			}
+			idxs := f.idxs
+			if f.all {
+				for i := 0; i < 64; i++ {
+					idxs = append(idxs, i)
+				}
+			}
+			switch f.kind {
+			case "RS":
+				faulty.Sim.Faults.ReloadSendErr[faulty.Sim.ReloadTr] = true
+			case "RF":
+				faulty.Sim.Faults.ReloadFailed[faulty.Sim.ReloadTr] = true
+			case "AE":
+				for _, i := range idxs {
+					faulty.Sim.Faults.AdminErr[faulty.Sim.AdminTr+i] = true
+				}
+			case "AB":
+				for _, i := range idxs {
+					faulty.Sim.Faults.AdminBad[faulty.Sim.AdminTr+i] = "simulated bad answer"
+				}
+			}
+		}
+		faulty.Log.Info("---- reconcile %d", sync)
+		_, ferr := faulty.Reconcile()
+		for _, u := range undo {
+			u()
+		}
+		faulty.Sim.Faults = world.Faults{}
+		if ferr != nil {
+			if strings.HasPrefix(ferr.Error(), "PANIC") {
+				res.fail = "PANIC"
+				fmt.Fprintf(os.Stderr, "C12 world panic in the faulty controller: %v\n", ferr)
+				return
+			}
+			res.errs = append(res.errs, "1")
+			if opt.KeepLog {
+				faulty.Log.Info("reconcile error: %v", ferr)
+			}
+		} else {
+			res.errs = append(res.errs, "0")
+		}
+		if faulty.Sim.Reloads != reloads {
+			reloads = faulty.Sim.Reloads
+			loaded = map[string]string{}
+			for _, f := range c12files(fd) {
+				loaded[f], _ = c12content(fd, f, true)
+			}
+		}
+		sync++
+	}
+	if opt.KeepLog {
+		for _, l := range faulty.Log.Lines {
+			fmt.Fprintln(os.Stderr, "FAULTY", l)
+		}
+	}
+	// final comparison
+	all := map[string]bool{}
+	for _, f := range c12files(td) {
+		all[f] = true
+	}
+	for _, f := range c12files(fd) {
+		all[f] = true
+	}
+	names := make([]string, 0, len(all))
+	for f := range all {
+		names = append(names, f)
+	}
+	sort.Strings(names)
+	for _, f := range names {
+		a, oka := c12content(td, f, false)
+		b, okb := c12content(fd, f, false)
+		if oka != okb || a != b {
+			res.diff = append(res.diff, f)
+		}
+		cur, okc := c12content(fd, f, true)
+		old, okl := loaded[f]
+		if okc && (!okl || old != cur) {
+			res.unload = append(res.unload, f)
+		}
+		tcur, okc := c12content(td, f, true)
+		told, okl := tloaded[f]
+		if okc && (!okl || told != tcur) {
+			res.tunload = append(res.tunload, f)
+		}
+	}
+	// backends without servers are left out: they exist in the table as soon as their file is read
+	withServers := func(t []string) string {
+		var keep []string
+		for _, l := range t {
+			if f := strings.Fields(l); len(f) > 1 {
+				keep = append(keep, l)
+			}
+		}
+		return strings.Join(keep, "\n")
+	}
+	res.tbl, res.tblt = "eq", "eq"
+	dt, derr := world.DiskTable(faulty.CfgDir)
+	if derr != nil || withServers(dt) != withServers(faulty.Sim.RunningTable()) {
+		res.tbl = "diff"
+	}
+	dt, derr = world.DiskTable(twin.CfgDir)
+	if derr != nil || withServers(dt) != withServers(twin.Sim.RunningTable()) {
+		res.tblt = "diff"
+	}
+	reqs, snis := world.RequestsFor(ops)
+	tt := twin.Snapshot(reqs, snis).Text()
+	ft := faulty.Snapshot(reqs, snis).Text()
+	res.snap = "eq"
+	if d := c12firstDiff(ft, tt); d != "" {
+		res.snap = "diff:" + d
+	}
+	res.tf = "-"
+	if withFresh {
+		res.tf = "eq"
+		fresh, err := world.NewPipeline(wt, opt)
+		if err == nil {
+			fresh.Startup()
+			if _, err := fresh.Reconcile(); err != nil {
+				res.tf = "err"
+			} else if fresh.Snapshot(reqs, snis).Text() != tt {
+				res.tf = "diff"
+			}
+			fresh.Close()
+		}
+	}
+	return
+}
+
+func c12scriptText(script map[int]string) string {
+	if len(script) == 0 {
+		return "-"
+	}
+	ks := make([]int, 0, len(script))
+	for k := range script {
+		ks = append(ks, k)
+	}
+	sort.Ints(ks)
+	parts := make([]string, len(ks))
+	for i, k := range ks {
+		parts[i] = fmt.Sprintf("%d:%s", k, script[k])
+	}
+	return strings.Join(parts, ",")
+}
+
+func c12worldCase(j *c12jobs, shards int, script string, ops []string) {
+	ops = append([]string(nil), ops...)
+	j.add(func() c12res {
+		r := c12worldRun(shards, c12parseScript(script), ops, true)
+		stats := []string{"mode_world", fmt.Sprintf("world_shards_%d", shards)}
+		for _, part := range strings.Split(script, ",") {
+			if kv := strings.SplitN(part, ":", 2); len(kv) == 2 {
+				k := kv[1]
+				if strings.HasPrefix(k, "F=") {
+					k = fmt.Sprintf("F_rank%02d", min(c12rank(strings.Split(k[2:], "+")[0]), 9))
+				} else if len(k) > 2 {
+					k = k[:2]
+				}
+				stats = append(stats, "world_fault_"+k)
+			}
+		}
+		if r.tf == "diff" {
+			stats = append(stats, "world_twin_differs_from_fresh")
+		}
+		return c12res{fmt.Sprintf("world s%d %s %s", shards, script, strings.Join(ops, " ")), r.text(), stats}
+	})
+}
+
+// c12worldGen: a random history; the twin is run once to learn what every reconcile writes, then a
+// fault is put on one reconcile (a file the reconcile writes, the reload, the admin socket), injected
+// once or twice, followed by two fault-free retries
+func c12worldGen(j *c12jobs, r *gen.Rng, count int) {
+	for i := 0; i < count; i++ {
+		rr := r.Fork()
+		shards := gen.Pick(rr, []int{0, 0, 3})
+		cfg := world.DefaultGen()
+		cfg.Classes = false
+		cfg.MaxBatches = 4
+		hist := world.NewGen(rr.Fork(), cfg).History()
+		j.add(func() c12res {
+			dry := c12worldRun(shards, nil, hist, false)
+			if dry.fail != "" || len(dry.steps) == 0 {
+				return c12res{}
+			}
+			// pick the reconcile and the fault
+			k := rr.Intn(len(dry.steps))
+			st := dry.steps[k]
+			var cands []string
+			seen := map[int]bool{}
+			for _, f := range st.written {
+				rk := c12rank(f)
+				if rk == 2 || seen[rk] && rk == 3 {
+					continue // inside the frontend maps / backend maps the order is not fixed: the group is blocked as a whole
+				}
+				seen[rk] = true
+				cands = append(cands, f)
+			}
+			var opts []string
+			for _, f := range cands {
+				switch c12rank(f) {
+				case 1: // the crt-list and with it every frontend map of the step
+					var g []string
+					for _, x := range st.written {
+						if c12rank(x) == 1 || c12rank(x) == 2 {
+							g = append(g, x)
+						}
+					}
+					opts = append(opts, "F="+strings.Join(g, "+"))
+				case 3:
+					var g []string
+					for _, x := range st.written {
+						if c12rank(x) == 3 {
+							g = append(g, x)
+						}
+					}
+					opts = append(opts, "F="+strings.Join(g, "+"))
+				default:
+					opts = append(opts, "F="+f)
+				}
+			}
+			if st.reload && st.sends == 0 {
+				opts = append(opts, "RS", "RF")
+			}
+			if st.sends > 0 {
+				opts = append(opts, "AE*", "AB*", "AE0")
+			}
+			if len(opts) == 0 {
+				return c12res{}
+			}
+			fault := gen.Pick(rr, opts)
+			// split the history at reconcile k: faulty reconcile (once or twice), two retries, the rest
+			var ops []string
+			script := map[int]string{}
+			n := 0
+			for _, o := range hist {
+				ops = append(ops, o)
+				if o == "sync" {
+					if n == k {
+						script[len(script)+0+k] = fault
+						if rr.Chance(1, 3) {
+							ops = append(ops, "sync")
+							script[k+1] = fault
+						}
+						ops = append(ops, "sync", "sync")
+						if rr.Chance(1, 2) {
+							break
+						}
+					}
+					n++
+				}
+			}
+			text := c12scriptText(script)
+			res := c12worldRun(shards, c12parseScript(text), ops, true)
+			stats := []string{"mode_world", fmt.Sprintf("world_shards_%d", shards)}
+			kk := fault
+			if strings.HasPrefix(kk, "F=") {
+				kk = fmt.Sprintf("F_rank%02d", min(c12rank(strings.Split(kk[2:], "+")[0]), 9))
+			} else {
+				kk = kk[:2]
+			}
+			stats = append(stats, "world_fault_"+kk)
+			if res.tf == "diff" {
+				stats = append(stats, "world_twin_differs_from_fresh")
+			}
+			return c12res{fmt.Sprintf("world s%d %s %s", shards, text, strings.Join(ops, " ")), res.text(), stats}
+		})
+	}
+}
+
 func runC12(c *ctx) {
 	r := gen.New(c.seed)
 	j := &c12jobs{c: c}
+	if os.Getenv("C12_ONLY") == "world" {
+		nw := 150
+		if c.thorough() {
+			nw = 2500
+		}
+		c12worldGen(j, r.Fork(), nw)
+		j.flush()
+		return
+	}
 	c12instCorpus(j)
 	c12instExhaustive(j, c.thorough())
 	n := 600
@@ -1060,5 +1722,14 @@ func runC12(c *ctx) {
 		n = 20000
 	}
 	c12instRandom(j, r.Fork(), n)
+	j.flush()
+	if os.Getenv("C12_ONLY") == "inst" {
+		return
+	}
+	nw := 150
+	if c.thorough() {
+		nw = 2500
+	}
+	c12worldGen(j, r.Fork(), nw)
 	j.flush()
 }
